@@ -24,6 +24,8 @@ Msg(ln) ==
        [] ln.act = "replay" -> [base EXCEPT !.body = Stub(ln.call - 1), !.seq = ln.call - 2]
        [] ln.act = "inject_clear" -> [NoMsg EXCEPT !.body = Evil, !.sealedBy = "adversary"]
        [] ln.act = "inject_bogus_trailer" -> [NoMsg EXCEPT !.body = Evil, !.sealedBy = "adversary", !.trailer = TRUE]
+       [] ln.act = "append_fragment" -> base      \* the genuine reply (flag "last fragment" cleared) followed by a cleartext fragment: what the peer
+                                                  \* sealed may be returned, or an error raised; anything else is "different"
 
 (* RpcSeal!Verifies with the line's negotiated flag and sequence number              *)
 VerifiesLn(ln, m) ==
